@@ -156,7 +156,7 @@ impl ReturnType for BinOperation {
             | BinOperator::Xor => lhs,
             BinOperator::Partition => partition::return_type(lhs),
             BinOperator::Map => map::return_type(rhs),
-            BinOperator::At => lhs.index_result().unwrap(),
+            BinOperator::At => lhs.index_result().unwrap_or(Type::Never),
             // the callee is a function, or - once a constant condition was folded away - of type `!`
             BinOperator::FunctionCall => lhs.return_type().unwrap_or(Type::Never),
             BinOperator::Assign => rhs,
